@@ -2,10 +2,13 @@
 
 Implementation: the real `GitFileHandler` / `_GitTransaction` / `_WritableGitFile` with real git on scratch
 repositories (several branches, a tag, nested directories), sequences of 1-4 transactions on one handler, all
-option combinations (dry_run, ignore_empty, remote_branch, author, message; push=False - no remote offline), an
+option combinations (dry_run, ignore_empty, remote_branch, author, message, push), an
 abort injected at every point of the body (before/between/inside writes, with a file left open, nested
 transaction) and a failure injected at every git command the transaction issues, until no further point is
-reached.  One stream saves a real model through `MelodyModel.save`.
+reached.  One stream saves a real model through `MelodyModel.save`.  A push stream gives the repository a bare
+`origin` (the real counterpart of "the remote"; works offline) in four situations - in sync, diverged (somebody else
+pushed: non-fast-forward), declining (pre-receive hook), absent - and runs pushing transactions, a failure injected
+at every git command (push and the restoring update-ref included), each followed by further saves on the same handler.
 Correspondence: Lean `Capella.Git` (driver `Git`) gets the same initial repository, handler and transaction
 sequence and must produce the same git command trace, error kinds, refs, commits (parent, tree), HEAD, index and
 work-tree status after every transaction.
@@ -34,7 +37,8 @@ RULE = ("systematic: for each (handler revision, subdir, option set) one body of
 ASSUMPTIONS = [
     "git 2.39 behaves as its manual says for rev-parse, add, write-tree, commit-tree -p, reset --soft/--hard, update-ref, clean (trusted, exercised)",
     "an injected git failure means the command did not run",
-    "push is not exercised (no remote exists offline): push=False everywhere",
+    "push: the remote is a bare repository on the same machine (file transport); it accepts a non-forced push iff no hook declines and the update is a fast-forward (git's rule, modelled as remoteAccepts); network failures are represented by the declining / absent remote and by injected failures of the push command",
+    "commits have at most one parent in the model (the generated repositories have no merge commits); ancestry = following parent links",
     "nobody else moves the handler's revision or touches its private work tree during the handler's life (documented precondition)",
     "file locking (helpers.flock) and work-tree creation/removal are exercised but not modelled",
 ]
@@ -47,11 +51,13 @@ MANIFEST = dict(
           "tree is the parent's with exactly the written paths replaced, moves only the target ref and leaves a clean work tree; an "
           "unchanged save creates nothing; abort at any point of any body, dry-run, and failure of any git command restore refs, HEAD, "
           "index and files and close the transaction; object-like targets are refused; writing needs a transaction; cleanliness is "
-          "an invariant of arbitrary transaction sequences. Tied to /repo by differential runs against real git (command trace, "
+          "an invariant of arbitrary transaction sequences; with push=True and the remote as a second ref store: the remote's refs are unchanged or exactly its "
+          "target ref was set to the handler's new HEAD by a successful transaction (for every failing command), a refused push (non-fast-forward, declining remote) "
+          "puts the local branch back and restores the work tree, with push=False the remote is never touched. Tied to /repo by differential runs against real git (command trace, "
           "refs, commits, index, status) and an independent git-CLI monitor."),
     design_ref="§6 C16",
-    note=("Trusted: Lean kernel; git itself (semantics of the plumbing commands as modelled); the _git interception shim; push and "
-          "remotes, flock, work-tree creation are not modelled."),
+    note=("Trusted: Lean kernel; git itself (semantics of the plumbing commands and of a non-forced push as modelled); the _git interception shim; "
+          "flock, work-tree creation, LFS, credentials and network transports are not modelled."),
     technique="Lean 4 proof (state-machine invariant over transaction sequences, ∀ abort point / ∀ failing command) + differential runs against real git",
 )
 
@@ -109,10 +115,12 @@ def make_repo(root: pathlib.Path) -> pathlib.Path:
 
 
 def refs_of(repo) -> dict[str, str]:
+    """branches and tags; refs/remotes/origin/* are git's own bookkeeping of what was pushed (they follow a successful push)"""
     out = {}
     for line in git(repo, "for-each-ref", "--format=%(refname) %(objectname)").splitlines():
         n, h = line.split(" ")
-        out[n] = h
+        if not n.startswith("refs/remotes/"):
+            out[n] = h
     return out
 
 
@@ -180,10 +188,41 @@ def worktree_files(wt: pathlib.Path) -> dict[str, bytes]:
     return out
 
 
-def observe(repo, wt) -> dict:
-    return dict(refs=refs_of(repo), all=all_commits(repo), head=git(wt, "rev-parse", "HEAD").strip(),
-                status=git(wt, "status", "--porcelain", "--untracked-files=all", "--ignored"),
-                main_head=git(repo, "symbolic-ref", "HEAD").strip())
+def observe(repo, wt, bare=None) -> dict:
+    d = dict(refs=refs_of(repo), all=all_commits(repo), head=git(wt, "rev-parse", "HEAD").strip(),
+             status=git(wt, "status", "--porcelain", "--untracked-files=all", "--ignored"),
+             main_head=git(repo, "symbolic-ref", "HEAD").strip())
+    if bare is not None:
+        d["remote_refs"] = refs_of(bare)
+        d["remote_all"] = all_commits(bare)
+    return d
+
+
+def make_remote(ctx: Ctx, repo: pathlib.Path, n: int, situation: str) -> pathlib.Path | None:
+    """The real counterpart of "the remote": a bare repository next to `repo`, registered as its `origin`.
+    insync: a clone of `repo`; diverged: somebody else has pushed another commit to its master; declines: a
+    pre-receive hook refuses every push; none: no remote `origin` at all (push cannot even start)."""
+    if situation == "none":
+        return None
+    bare = ctx.scratch / f"r{n}.git"
+    git(ctx.scratch, "clone", "-q", "--bare", str(repo), str(bare))
+    git(repo, "remote", "add", "origin", str(bare))
+    if situation == "diverged":
+        other = ctx.scratch / f"o{n}"
+        git(ctx.scratch, "clone", "-q", str(bare), str(other))
+        git(other, "config", "user.name", "Other")
+        git(other, "config", "user.email", "other@example.invalid")
+        git(other, "checkout", "-q", "master")
+        (other / "other.txt").write_bytes(b"pushed by somebody else")
+        git(other, "add", "-A")
+        git(other, "commit", "-q", "-m", "somebody else")
+        git(other, "push", "-q", "origin", "master")
+        shutil.rmtree(other, ignore_errors=True)
+    elif situation == "declines":
+        hook = bare / "hooks" / "pre-receive"
+        hook.write_text("#!/bin/sh\necho 'declined by pre-receive hook' >&2\nexit 1\n")
+        hook.chmod(0o755)
+    return bare
 
 
 # ------------------------------------------------------------------ driving the handler
@@ -231,13 +270,15 @@ def canon_cmd(words: list[str], subdir: str) -> str:
         return "update-ref " + words[2]
     if w0 == "cat-file":
         return "cat-file"
+    if "push" in words[:3]:
+        return "push " + words[-1]
     return w0
 
 
 def run_txn(fh, shim: GitShim, txn: dict) -> dict:
     """Run one transaction description on the handler; returns what the caller saw."""
-    opts = dict(push=False)
-    for k in ("dry_run", "ignore_empty", "remote_branch", "author_name", "author_email", "commit_msg"):
+    opts = dict(push=bool(txn.get("push")))
+    for k in ("dry_run", "ignore_empty", "remote_branch", "author_name", "author_email", "commit_msg", "push_options"):
         if txn.get(k) is not None:
             opts[k] = txn[k]
     shim.reset(txn.get("git_fault"))
@@ -307,7 +348,10 @@ def monitor_txn(out: Outcome, hdesc: dict, seq_so_far: list, txn: dict, res: dic
     kind = err_kind(seen)
     cause = kind or ("dry-run" if txn.get("dry_run") else "commit")
     if res["failed"]:
-        cause = "gitfail:" + res["failed"][0] + ("-" + res["failed"][1] if res["failed"][0] == "reset" else "")
+        f0 = "push" if "push" in res["failed"][:3] else res["failed"][0]
+        cause = "gitfail:" + f0 + ("-" + res["failed"][1] if res["failed"][0] == "reset" else "")
+    elif isinstance(seen, subprocess.CalledProcessError) and "push" in [str(c) for c in (seen.cmd or [])]:
+        cause = "push-refused:" + str(hdesc.get("remote"))
     replay = {"handler": hdesc, "sequence": seq_so_far}
 
     def find(cls, msg):
@@ -326,12 +370,37 @@ def monitor_txn(out: Outcome, hdesc: dict, seq_so_far: list, txn: dict, res: dic
     ref_moved = post["refs"] != pre["refs"]
     if post["main_head"] != pre["main_head"]:
         find("main-head-moved", "the repository's own HEAD changed")
+    # --- the remote: exactly one commit becomes visible there, or none
+    if "remote_refs" in pre:
+        rnew = post["remote_all"] - pre["remote_all"]
+        rdiff = diffrefs(pre["remote_refs"], post["remote_refs"])
+        lnew = post["all"] - pre["all"]
+        if not (committed_expected and txn.get("push")):
+            if rdiff or rnew:
+                find("remote-changed", f"remote refs changed although nothing was (to be) pushed: {rdiff}, {len(rnew)} new commits")
+        elif lnew:  # a save with push=True that went through and created a commit
+            # the new commit becomes visible on the remote, together with at most its own not yet pushed ancestors
+            anc = set(git(repo, "rev-list", next(iter(lnew))).split()) if len(lnew) == 1 else set()
+            if len(lnew) != 1 or not lnew <= rnew or not rnew <= anc:
+                find("remote-commit-count", f"{len(rnew)} new commits visible on the remote, {len(lnew)} created locally, not the new commit plus its ancestors")
+            else:
+                (n_,) = lnew
+                exp = dict(pre["remote_refs"])
+                exp[target] = n_
+                if post["remote_refs"] != exp:
+                    find("remote-wrong-ref", f"remote refs after push: {rdiff}, expected only {target} -> new commit")
+                if post["refs"].get(target) != post["remote_refs"].get(target):
+                    find("remote-differs-from-local", f"{target} differs between local repository and remote after a successful push")
+        elif rdiff or rnew:
+            find("remote-changed", f"an empty save changed the remote: {rdiff}")
+    # the update-ref that puts the branch back after a refused push was itself refused: nothing can restore the ref then
+    restore_failed = bool(res["failed"]) and res["failed"][0] == "update-ref" and any("push" in c[:3] for c in res["calls"])
     if not committed_expected:
-        if ref_moved:
+        if ref_moved and not (restore_failed and set(diffrefs(pre["refs"], post["refs"])) == {target}):
             find("ref-moved", f"refs changed although the transaction was aborted/dry-run: {diffrefs(pre['refs'], post['refs'])}")
-        if post["head"] != pre["head"]:
-            find("head-moved", f"work tree HEAD moved {pre['head'][:8]} -> {post['head'][:8]}")
         rollback_failed = res["failed"] and (res["failed"][:2] == ["reset", "--hard"] or res["failed"][0] == "clean")
+        if post["head"] != pre["head"] and not (rollback_failed and res["failed"][:2] == ["reset", "--hard"]):
+            find("head-moved", f"work tree HEAD moved {pre['head'][:8]} -> {post['head'][:8]}")
         if post["status"] != "" and not rollback_failed:  # if the roll-back command itself is refused nothing can restore
             find("worktree-dirty", f"work tree not restored, status: {post['status']!r}")
         return
@@ -480,6 +549,52 @@ def systematic(ctx: Ctx, hdesc) -> list[list[dict]]:
     return seqs
 
 
+def push_sequences(ctx: Ctx) -> list[tuple[dict, list[dict]]]:
+    """Transactions with push=True against a bare `origin`: fast-forward (accepted), diverged remote branch (non-fast-forward:
+    rejected), a remote that declines (pre-receive hook), no remote at all, new remote branches, dry-run / empty / aborted
+    saves with push=True (nothing may reach the remote), a failure injected at every git command, each followed by a
+    plain local commit and a second push on the same handler."""
+    out = []
+    body = [("w", "a.txt", b"pushed1"), ("w", "new.txt", b"new1")]
+    follow_local = dict(body=[("w", "a.txt", b"after")], commit_msg="follow-up, not pushed", git_fault=None)
+    follow_push = dict(body=[("w", "b.txt", b"after2")], commit_msg="follow-up, pushed", git_fault=None, push=True)
+    handlers = [dict(revision="master", subdir="/"), dict(revision="refs/heads/feature/x", subdir="/"), dict(revision="master", subdir="sub")]
+    for situation in ("insync", "diverged", "declines", "none"):
+        for hdesc in (handlers if ctx.thorough else handlers[:1]):
+            hd = dict(hdesc, remote=situation)
+            b = body if hdesc["subdir"] == "/" else [("w", "c.txt", b"pushed1"), ("w", "new2.txt", b"new1")]
+            fl = follow_local if hdesc["subdir"] == "/" else dict(follow_local, body=[("w", "c.txt", b"after")])
+            fp = follow_push if hdesc["subdir"] == "/" else dict(follow_push, body=[("w", "deep/d.txt", b"after2")])
+            optsets = [dict(), dict(remote_branch="out"), dict(remote_branch="dev"), dict(ignore_empty=False), dict(dry_run=True)]
+            if not ctx.thorough:
+                optsets = optsets if situation == "insync" else optsets[:3] if situation == "diverged" else optsets[:1]
+            for o in optsets:
+                out.append((hd, [dict(o, push=True, body=list(b), git_fault=None), fl, fp]))
+                if ctx.thorough or situation in ("insync", "diverged"):
+                    out.append((hd, [dict(o, push=True, body=list(b), git_fault=None), dict(o, push=True, body=[(b[0][0], b[0][1], b"again")], git_fault=None)]))
+                if ctx.thorough or situation == "insync":
+                    out.append((hd, [dict(o, push=True, body=list(b) + [("raise",)], git_fault=None), fp]))
+                    out.append((hd, [dict(o, push=True, body=[(b[0][0], b[0][1], None)], git_fault=None), fp]))  # unchanged
+            # every git command of a pushing transaction, the restoring update-ref and the roll-back included
+            for j in (range(0, 14) if ctx.thorough or situation in ("insync", "diverged") else range(6, 13)):
+                out.append((hd, [dict(push=True, body=list(b), git_fault=j), fl, fp]))
+                if ctx.thorough:
+                    out.append((hd, [dict(remote_branch="out", push=True, body=list(b), git_fault=j), fp]))
+    rng = ctx.rng
+    for _ in range(ctx.pick(10, 120)):
+        hd = dict(rng.choice(handlers), remote=rng.choice(["insync", "insync", "diverged", "declines", "none"]))
+        current = dict(INITIAL_FILES)
+        seq = []
+        for _ in range(rng.randint(1, 4)):
+            t = rand_txn(ctx, hd, current)
+            t["push"] = rng.random() < 0.7
+            if t["remote_branch"] in OBJECTLIKE and rng.random() < 0.5:
+                t["remote_branch"] = None
+            seq.append(t)
+        out.append((hd, seq))
+    return out
+
+
 # ------------------------------------------------------------------ model protocol
 
 
@@ -500,7 +615,8 @@ def to_model_txn(txn: dict, hdesc) -> dict:
         else:
             body.append([o[0], full(o[1]), list(o[2])])
     return {"dry": bool(txn.get("dry_run")), "ignore_empty": txn.get("ignore_empty", True) is not False,
-            "remote_branch": txn.get("remote_branch"), "fault": txn.get("git_fault"), "body": body}
+            "remote_branch": txn.get("remote_branch"), "fault": txn.get("git_fault"), "body": body,
+            "push": bool(txn.get("push")), "remote_declines": hdesc.get("remote") in ("declines", "none")}
 
 
 class Ids:
@@ -511,10 +627,11 @@ class Ids:
         return self.map.get(sha, f"?{sha[:8]}")
 
 
-def canon_state(repo, wt, ids: Ids) -> dict:
+def canon_state(repo, wt, ids: Ids, bare=None) -> dict:
     idx = index_of(wt)
     files = worktree_files(wt)
     return {
+        "remote": None if bare is None else sorted([n, ids.of(h)] for n, h in refs_of(bare).items()),
         "refs": sorted([n, ids.of(h)] for n, h in refs_of(repo).items() if not n.startswith("refs/tags/") or True),
         "head": ids.of(git(wt, "rev-parse", "HEAD").strip()),
         "index": sorted([p, list(b)] for p, b in idx.items()),
@@ -526,6 +643,7 @@ def run_sequence(ctx: Ctx, out: Outcome, base_repo: pathlib.Path, hdesc: dict, s
     repo = ctx.scratch / f"r{n}"
     shutil.copytree(base_repo, repo, symlinks=True)
     rev = hdesc["revision"]
+    bare = make_remote(ctx, repo, n, hdesc["remote"]) if hdesc.get("remote") else None
     fh = fg.GitFileHandler(str(repo), rev, subdir=hdesc["subdir"])
     wt = fh.cache_dir
     hd = dict(hdesc, revision_full=fh.revision)
@@ -534,12 +652,16 @@ def run_sequence(ctx: Ctx, out: Outcome, base_repo: pathlib.Path, hdesc: dict, s
     ids = Ids()
     for i, sha in enumerate(git(repo, "rev-list", "--all", "--topo-order", "--reverse").split()):
         ids.map[sha] = i
+    if bare is not None:  # commits only the remote has (pushed there by somebody else)
+        for sha in git(bare, "rev-list", "--all", "--topo-order", "--reverse").split():
+            ids.map.setdefault(sha, len(ids.map))
     init_commits = []
     for sha, i in sorted(ids.map.items(), key=lambda kv: kv[1]):
-        info = commit_info(repo, sha)
+        where = repo if git(repo, "cat-file", "-t", sha, check=False).strip() == "commit" else bare
+        info = commit_info(where, sha)
         init_commits.append({"parent": ids.map[info["parents"][0]] if info["parents"] else None,
-                             "tree": sorted([p, list(b)] for p, b in tree_of(repo, sha).items())})
-    init_state = canon_state(repo, wt, ids)
+                             "tree": sorted([p, list(b)] for p, b in tree_of(where, sha).items())})
+    init_state = canon_state(repo, wt, ids, bare)
     model_txns, impl_steps, done = [], [], []
     tainted = False
     try:
@@ -555,9 +677,9 @@ def run_sequence(ctx: Ctx, out: Outcome, base_repo: pathlib.Path, hdesc: dict, s
                     op = (op[0], op[1], cur.get(fp, b"?"))
                 body.append(op)
             txn["body"] = body
-            pre = observe(repo, wt)
+            pre = observe(repo, wt, bare)
             res = run_txn(fh, shim, txn)
-            post = observe(repo, wt)
+            post = observe(repo, wt, bare)
             for sha in shim.commit_shas:
                 ids.map.setdefault(sha, len(ids.map))
             done.append(jsonable(txn))
@@ -575,7 +697,7 @@ def run_sequence(ctx: Ctx, out: Outcome, base_repo: pathlib.Path, hdesc: dict, s
             if fh._transaction is not None:
                 fh._transaction = None
             model_txns.append(to_model_txn(txn, hd))
-            st = canon_state(repo, wt, ids)
+            st = canon_state(repo, wt, ids, bare)
             st["err"] = err_kind(res["seen"])
             st["trace"] = [canon_cmd(w, hd["subdir"]) for w in res["calls"]]
             st["ncommits"] = len(ids.map)
@@ -601,6 +723,8 @@ def run_sequence(ctx: Ctx, out: Outcome, base_repo: pathlib.Path, hdesc: dict, s
     obss.append(impl_steps)
     metas.append({"handler": hd, "sequence": done})
     shutil.rmtree(repo, ignore_errors=True)
+    if bare is not None:
+        shutil.rmtree(bare, ignore_errors=True)
 
 
 def jsonable(txn):
@@ -739,6 +863,12 @@ def run(ctx: Ctx) -> Outcome:
         seq = [rand_txn(ctx, hdesc, current) for _ in range(ctx.rng.randint(1, 4))]
         n += 1
         run_sequence(ctx, out, base, hdesc, seq, n, fg, reqs, obss, metas)
+    # ---- push: a bare repository as `origin`, in four situations
+    for seq_h in push_sequences(ctx):
+        hdesc, seq = seq_h
+        n += 1
+        run_sequence(ctx, out, base, hdesc, seq, n, fg, reqs, obss, metas)
+        out.hit("remote:" + hdesc["remote"])
     model_stream(ctx, out, fg)
     out.extra["sequences"] = n
     out.exhaustive = True  # every abort position / git command index of the representative bodies
@@ -779,7 +909,7 @@ def replay(ctx: Ctx, case: dict):
     if case.get("model_stream"):
         model_stream(ctx, o, fg)
     else:
-        hd = {k: case["handler"][k] for k in ("revision", "subdir")}
+        hd = {k: case["handler"][k] for k in ("revision", "subdir", "remote") if k in case["handler"]}
         run_sequence(ctx, o, base, hd, [unjson(t) for t in case["sequence"]], 1, fg, [], [], [])
     if o.findings:
         return "; ".join(f"{f.signature}: {f.what[:300]}" for f in o.findings[:3])
